@@ -3,8 +3,12 @@ correspondence + oracle (see DESIGN.md 6/C14).
 
 A case is a script of user actions on a real `FdFit`: add a dataset to a model (with renamings / numeric overrides),
 set value / bounds / fixed flag of a global parameter, fit, query (parameter table + the local parameter vector
-every dataset sees, by the index route `Condition.get_local_params` and by the name route `FitData.get_params`),
-and a Jacobian-row probe.  `scipy.optimize.least_squares` is recorded, not modelled: the Lean model receives what the
+every dataset sees, by the index route `Condition.get_local_params` and by the name route `FitData.get_params`, + the
+length of the residual vector the fit evaluates at that moment), and a Jacobian-row probe.  Scripts keep working on
+ONE fit object: fits are followed by further data (with and without new parameters) and further fits with nothing set
+in between, so that anything the object remembers from an earlier fit/query meets changed data.  A fit that is
+entitled to run (data, a free parameter, start inside a box with lb < ub) has to run to the end: an exception out of
+the optimiser is a violation, not an outcome.  `scipy.optimize.least_squares` is recorded, not modelled: the Lean model receives what the
 optimiser answered (it is a parameter of the model, assumed only to answer a point of its box; the harness asserts
 that contract on every call)."""
 import json
@@ -34,6 +38,7 @@ THEOREMS = [
     "Verif.C14.add_data_names_mono",
     "Verif.C14.add_data_appends",
     "Verif.C14.add_data_keeps_entries",
+    "Verif.C14.add_data_residuals",
     "Verif.C14.fit_spec",
     "Verif.C14.fixed_unchanged",
     "Verif.C14.fit_table_length",
@@ -58,10 +63,13 @@ RULE = (
     "reordering, every error path) + exhaustive small scope (model y=a+b*x; quick: 1-2 datasets x target kinds own/"
     "renamed/constant/other-parameter per parameter and dataset x 2 fixing patterns; thorough: 1-2 datasets with the "
     "additional kind shared-name x 3 fixing/bounding patterns, and 3 datasets x 4 kinds with a rotating pattern; each "
-    "with query, probe, fit, query, refit, query) + seeded random scripts (1-3 polynomial models with 1-5 "
+    "with query, probe, fit, query, refit, query, further data with the layout of an existing dataset, query, fit, "
+    "query) + seeded random scripts (1-3 polynomial models with 1-5 "
     "parameters, optional shared kT, random defaults/bounds/fixed flags, analytic or 2-point Jacobian, 1-4 datasets "
     "on random models with renamings to fresh/pooled/foreign/duplicate names and int/float constants, NaN samples, "
-    "interleaved sets incl. degenerate and infeasible boxes, 1-3 fits; ~10% malformed actions: duplicate dataset "
+    "interleaved sets incl. degenerate and infeasible boxes, 1-3 fits, in half of the scripts a tail of 1-2 further "
+    "datasets on the same object (layout of an existing dataset / one parameter renamed / all-NaN) each followed by "
+    "query and/or fit with nothing set in between; ~10% malformed actions: duplicate dataset "
     "name, unknown override key, unequal lengths, unknown parameter) + bookkeeping-only scripts on the library's "
     "built-in / composite / offset models + unique() lists + RECOVERY EXPLORATION (not proof): noise-free data generated "
     "by 1-2 built-in models (Odijk, Marko-Siggia (in)extensible, eFJC, tWLC; force and distance forms; slow inverted "
@@ -69,12 +77,14 @@ RULE = (
     "parameters fixed, start perturbed by <=15% (contour length of force models upwards; for the inextensible "
     "force model additionally bounded below by the largest distance), optional fixing at the generating value and "
     "bounds tightened around / placed at the optimum; fit, refit from the optimum, add further data and fit: the "
-    "generating values must come back within rel 1e-3 (5e-2 when a bound sits AT the optimum). Non-trivial: a fit ran to the end with >=2 datasets, an "
+    "generating values must come back within rel 1e-3 (5e-2 when a bound sits AT the optimum) and no fit may raise. "
+    "Every query also reads the length of the residual vector the fit evaluates (= valid points of all datasets added "
+    "so far); a fit that raises inside the optimiser from a feasible start in a box with lb < ub is a violation. Non-trivial: a fit ran to the end with >=2 datasets, an "
     "override or a fixed parameter; or an error path was hit; or >=2 datasets with an override were queried."
 )
 TRUSTED = [
     "scipy.optimize.least_squares is a PARAMETER of the model (recorded per call and replayed to the Lean model); the only assumption the theorems use (OptInBox: the answer lies in the box passed to it) is asserted by the oracle on every recorded call",
-    "the standard-error computation after the write-back (Fit.cov, sigma) is outside the model; an exception raised there is recorded as '!post' and not compared",
+    "the standard-error computation after the write-back (Fit.cov, sigma) is outside the model; an exception raised there is recorded as '!post' and not compared with the model (in the recovery stream the oracle still reports it: those fits have to return)",
     "Python str() of a numeric override is sent to the model verbatim (the code builds condition strings from it)",
 ]
 ASSUMPTIONS = [
@@ -233,7 +243,7 @@ class Recorder:
         return False
 
 
-def observe(fit, models):
+def observe(fit, models, strict=True):
     P = fit.params
     items = list(P.items())
     T = "T[" + ",".join(
@@ -244,12 +254,17 @@ def observe(fit, models):
     # what the model functions are really called with when the fit evaluates its residual (toy models only)
     del _CALLS[:]
     seen = {}
+    # ... and how long the residual vector is that the fit evaluates NOW (one entry per valid point of every dataset
+    # that has been added so far: a dataset that is not in it is not seen by the fit)
     try:
-        fit._calculate_residual()
+        nres = "R" + str(len(fit._calculate_residual()))
         for x, params in _CALLS:
             seen.setdefault(id(x), []).append(list(params))
-    except Exception:
+    except Exception as e:
         seen = None
+        # bookkeeping-only scripts on the library's own models carry parameter values their formulas may refuse
+        # (`strict` is off there): the length the vector is allocated with is read instead
+        nres = "R!" + errname(e) if strict else "R" + str(int(fit.n_residuals))
     del _CALLS[:]
     for m in models:
         ds = fit[m]
@@ -274,7 +289,7 @@ def observe(fit, models):
                 b = "[IndexError]"
             parts.append(f"{showstr(name)}={a}={b}")
         per.append("{" + " ".join(parts) + "}")
-    return T + " L" + "".join(per)
+    return T + " L" + "".join(per) + " " + nres
 
 
 def jac_probe(fit, models, mi, name, sens_x):
@@ -363,7 +378,7 @@ def run_script(case):
                 obs.append(o)
         elif a == "query":
             try:
-                obs.append(observe(fit, models))
+                obs.append(observe(fit, models, strict=all(s["kind"] == "poly" for s in case["models"]) or case.get("truth") is not None))
             except Exception as e:
                 obs.append("query-raised:" + errname(e))
         elif a == "jac":
@@ -524,7 +539,9 @@ def parse_optratlist(s):
 
 
 def parse_query(o):
+    """-> (table, per-model {dataset: (by index, by name)}); `parse_nres` reads the residual length"""
     t, l = o.split(" L", 1)
+    l = l.rsplit(" R", 1)[0]
     table = parse_table(t)
     models = []
     for blk in l[1:-1].split("}{") if l else []:
@@ -535,6 +552,12 @@ def parse_query(o):
                 ds[unshowstr(n)] = (None if a == "missing" else parse_ratlist(a), None if "IndexError" in b else parse_ratlist(b))
         models.append(ds)
     return table, models
+
+
+def parse_nres(o):
+    """length of the residual vector reported by a query (None: evaluating the residual raised)"""
+    r = o.rsplit(" R", 1)[1]
+    return int(r) if r.isdigit() else None
 
 
 def in_bounds(v, lo, hi):
@@ -639,6 +662,14 @@ def _oracle(case, ia):
                             fail("kept", f"action {idx}: parameter {n!r} {f} is {got[f]} but was last set/fitted to {ev}")
             for r in table:
                 E[r[0]] = {"value": r[1], "lb": r[2], "ub": r[3], "fixed": r[4]}
+            # every dataset added so far is seen: the residual the fit evaluates now has one entry per valid point of
+            # every dataset (further data must not leave the fit looking at what it evaluated before)
+            npts_now = sum(d[2] for dsl in data for d in dsl)
+            nres = parse_nres(o)
+            if nres is None:
+                fail("sees-residual", f"action {idx}: evaluating the residual of the fit raised ({o.rsplit(' R', 1)[1]})")
+            elif nres != npts_now:
+                fail("sees-residual", f"action {idx}: the datasets added so far hold {npts_now} valid points ({[(d[0], d[2]) for dsl in data for d in dsl]}), the residual the fit evaluates has {nres} entries: not every dataset is seen")
             # every dataset sees the table entry of the name it is mapped to, or its constant
             for mi, dsl in enumerate(data):
                 strs = [cond_string(d[1]) for d in dsl]
@@ -697,6 +728,18 @@ def _oracle(case, ia):
                     ub = parse_optratlist(parts[4])
                     if x0 != [r[1] for r in free] or lb != [r[2] for r in free] or ub != [r[3] for r in free]:
                         fail("fit-call", f"action {idx}: the optimiser was not started from the free parameters with their bounds: {o[:200]}")
+            if optimiser_called and not ran:
+                # the optimiser was started and raised: with finite data, a start inside a box with lb < ub there is
+                # nothing it may complain about (a box with lb >= ub is refused by SciPy itself) - a fit that is
+                # entitled to run has to run to the end
+                lb = parse_optratlist(parts[3])
+                ub = parse_optratlist(parts[4])
+                if all(lo is None or hi is None or lo < hi for lo, hi in zip(lb, ub)):
+                    fail("fit-raised", f"action {idx}: fit raised {head} inside the optimiser although there are {npoints} valid points and the start {[float(v) for v in parse_ratlist(parts[2])]} lies in the non-degenerate box [{[None if v is None else float(v) for v in lb]}, {[None if v is None else float(v) for v in ub]}]")
+            if ran and "!post:" in o and truth is not None:
+                # noise-free data of the built-in models: the fit has to return (the standard errors are not compared,
+                # but fit() must not raise while it computes them)
+                fail("fit-raised", f"action {idx}: fit raised {o.split('!post:')[1]} after the optimiser had answered")
             if ran:
                 x = parse_ratlist(parts[5].split("!")[0])
                 lb = parse_optratlist(parts[3])
@@ -934,7 +977,11 @@ def small_scope(tier):
                 elif fixpat == 2 and tnames:
                     post = [S(tnames[-1], "lb", 0.0), S(tnames[-1], "ub", 2.5), S(tnames[-1], "value", 2.0), Q]
                 probe = [{"a": "jac", "mi": 0, "name": "d0", "sens": sens_for(acts[0], 2)}]
-                yield script("small-scope", [M], acts + post + probe + [F, Q, F, Q])
+                # ... and further data with the layout of an existing dataset (no new parameter, nothing set in
+                # between: the fit object goes from "just fitted" straight to "more data" to "fit again")
+                src = acts[ci % nds]
+                more = add_action(0, "more", XS[3:8], [1.0 + ci % nds, 3.0], src.get("ov"))
+                yield script("small-scope", [M], acts + post + probe + [F, Q, F, Q, more, Q, F, Q])
 
 
 NAME_POOL = ["x", "y", "shared", "M/a_2", "DNA/Lc_RecA", "λ/Lc", "k T", "", "a.b", "P/c0"]
@@ -1048,6 +1095,36 @@ def random_script(rng, stream="random"):
                 acts.append(Q)
             if rng.chance(0.3):
                 acts += [F, Q]
+    # further data on the SAME fit object after everything above (drawn from a fork, so the script above is what it
+    # always was): 1-2 more datasets, mostly with the layout of a dataset that is already there (no new parameter),
+    # sometimes renamed per dataset or with all samples NaN (no new residual), each followed by a query and/or a fit
+    # with nothing set in between - whatever the object remembers from the last fit/query meets changed data
+    t = rng.fork("further-data")
+    oks = []
+    seen_names = [[] for _ in models]
+    for a in acts:
+        if a["a"] == "add" and a["name"] not in seen_names[a["mi"]] and len(a["x"]) == len(a["y"]) and all(key in pn[a["mi"]] for key in a.get("ov", {})):
+            seen_names[a["mi"]].append(a["name"])
+            oks.append(a)
+    if oks and t.chance(0.5):
+        for j in range(t.choice([1, 1, 2])):
+            src = t.choice(oks)
+            names = pn[src["mi"]]
+            ov = dict(src.get("ov", {}))
+            if t.chance(0.2):
+                p = t.choice(names)
+                ov[p] = {"n": f"{p}_more{j}"}
+            npts = t.randint(len(names) + 1, len(names) + 6)
+            x = [t.choice(XS) + t.choice([0.0, 0.25, 10.0]) for _ in range(npts)]
+            y = poly_y([t.choice([0.0, 1.0, -2.0, 0.5, 3.0]) for _ in names], x)
+            if t.chance(0.08):
+                y = [float("nan")] * npts
+            a = {"a": "add", "mi": src["mi"], "name": f"more{j}", "x": x, "y": y}
+            if ov:
+                a["ov"] = ov
+            acts.append(a)
+            c = t.randint(0, 9)
+            acts += [Q, F, Q] if c <= 3 else [F, Q] if c <= 6 else [Q] if c <= 8 else [F]
     return script(stream, models, acts)
 
 
